@@ -106,16 +106,20 @@ def bounds(tier):
     return {
         "matrix": "n=2,3,4 over 4 values (incl. 0); n=5 over %s; "
                   "n<=3 additionally x 6 dtype/layout variants; n=0,1 as unspecified"
-                  % ("the 3 non-zero values" if q else "all 4 values; n=6 over the 2 smallest non-zero values"),
+                  % ("{a,b} and {0,a} (a<b the smallest non-zero values)" if q else
+                     "the 3 non-zero values and over {0,a,b}; n=6 over {a,b}"),
         "additive": "all unrooted binary topologies n=4,5 x lengths^edges for a positive and a zero-containing "
                     "3-value palette; n=6: %s" % ("assignments with <= 2 distinct lengths (positive palette)" if q
                                                   else "all 3^9 assignments (positive palette) and <= 2 distinct "
                                                        "lengths (zero palette)"),
         "tree_leaves": "<=5" if q else "<=5, and 6 with <= 1 unary node (identity and reversed permutation)",
         "tree_unary_nodes": 1 if q else 2,
-        "tree_permutations": "all for n<=4; n=5: %s" % (
-            "identity x 7 palettes + 5 listed permutations x {distinct, milli}" if q
-            else "all 120 x 7 palettes for shapes without unary nodes, 6 listed for shapes with unary nodes"),
+        "tree_permutations": (
+            "n<=3: all x 7 palettes; n=4: identity x 7 palettes + the other 23 x {distinct, milli}; "
+            "n=5: identity x 7 palettes + 5 listed permutations x {distinct, milli}" if q
+            else "n<=3, and n=4 with <= 1 unary node: all x 7 palettes; n=4 with 2 unary nodes: identity x 7 + the other "
+                 "23 x {ones, distinct, milli}; n=5: identity x 7 palettes + (no unary node: the other 119; with unary "
+                 "nodes: 5 listed) x {ones, distinct, milli}; n=6: identity, reversed x {ones, distinct, milli}"),
         "distance_palettes": DIST_PALETTES,
         "writer_options": "labels {None, plain, awkward, numeric-reversed, with-blank} x include_distance x "
                           "round_distance {None,0,3}",
@@ -1109,9 +1113,13 @@ def shards(tier, seed):
     out.append({"kind": "matrix", "n": 3, "vals": "all", "part": 0, "parts": 1})
     for p in range(4):
         out.append({"kind": "matrix", "n": 4, "vals": "all", "part": p, "parts": 4})
-    parts5 = 16 if q else 96
-    for p in range(parts5):
-        out.append({"kind": "matrix", "n": 5, "vals": "nonzero" if q else "all", "part": p, "parts": parts5})
+    if q:
+        out.append({"kind": "matrix", "n": 5, "vals": "two", "part": 0, "parts": 1})
+        out.append({"kind": "matrix", "n": 5, "vals": "zero_one", "part": 0, "parts": 1})
+    else:
+        for vals in ("nonzero", "zero_two"):
+            for p in range(16):
+                out.append({"kind": "matrix", "n": 5, "vals": vals, "part": p, "parts": 16})
     if not q:
         for p in range(8):
             out.append({"kind": "matrix", "n": 6, "vals": "two", "part": p, "parts": 8})
@@ -1146,10 +1154,19 @@ def shards(tier, seed):
     for p in range(4):
         out.append({"kind": "eqpairs", "part": p, "parts": 4})
     # heavy first, rotated by the seed
-    heavy = [s for s in out if s["kind"] in ("tree", "additive") or (s["kind"] == "matrix" and s["n"] >= 5)]
+    heavy = [s for s in out if (s["kind"] == "tree" and s["n"] >= 4) or s["kind"] == "additive"
+             or (s["kind"] == "matrix" and s["n"] >= 5)]
     light = [s for s in out if s not in heavy]
-    r = seed % max(1, len(heavy))
-    return heavy[r:] + heavy[:r] + light
+    # interleave the kinds (evidence samples come from the first shards that finish), rotate by the seed
+    per_kind = {}
+    for sh in heavy:
+        per_kind.setdefault(sh["kind"], []).append(sh)
+    mixed = []
+    for grp in itertools.zip_longest(*[per_kind[k] for k in ("tree", "additive", "matrix") if k in per_kind]):
+        mixed += [sh for sh in grp if sh is not None]
+    r = seed % max(1, len(mixed))
+    small = [sh for sh in light if sh["kind"] == "tree"]
+    return small + mixed[r:] + mixed[:r] + [sh for sh in light if sh["kind"] != "tree"]
 
 
 def run_shard(shard, ctx):
@@ -1177,6 +1194,10 @@ def run_matrix(shard, ctx):
         vals = pal[1:]
     elif shard["vals"] == "two":
         vals = pal[1:3]
+    elif shard["vals"] == "zero_one":
+        vals = pal[0:2]
+    elif shard["vals"] == "zero_two":
+        vals = pal[0:3]
     else:
         vals = pal
     m = n * (n - 1) // 2
@@ -1207,7 +1228,7 @@ def run_matrix(shard, ctx):
             nontriv = n >= 3 and (len(set(tri)) < len(tri) or 0 in tri) and variant == "float64"
             ctx.ev(1, 1 if nontriv else 0)
             check_matrix(ctx, case)
-            if len(ctx.samples) < 1 and idx > 3 * parts:
+            if part == 0 and len(ctx.samples) < 1 and len(set(tri)) == min(len(vals), len(tri)):
                 ctx.sample(case)
 
 
@@ -1237,8 +1258,8 @@ def run_additive(shard, ctx):
             case = {"kind": "additive", "n": n, "edges": [list(e) for e in edges], "lengths": list(lengths)}
             ctx.ev(1, 1)
             check_additive(ctx, case)
-        if len(ctx.samples) < 1:
-            ctx.sample(case)
+            if t0 == 0 and len(ctx.samples) < 1 and len(set(lengths)) == min(shard["distinct"], len(pal)):
+                ctx.sample(case)
 
 
 def tree_cases(n, U, tier, seed):
@@ -1247,19 +1268,26 @@ def tree_cases(n, U, tier, seed):
     shp = M.shapes(n, U)
     for si, sh in enumerate(shp):
         nl, un, ar, ne = M.shape_stats(sh)
-        if n <= 4:
+        ident = list(range(n))
+        few = ("distinct", "milli")
+        if n <= 3 or (n == 4 and not q and un <= 1):
             combos = [(list(p), pal) for p in itertools.permutations(range(n)) for pal in DIST_PALETTES]
+        elif n == 4:
+            combos = [(ident, pal) for pal in DIST_PALETTES]
+            combos += [(list(p), pal) for p in itertools.permutations(range(n)) if list(p) != ident
+                       for pal in (few if q else ("ones",) + few)]
         elif n == 5:
             listed = PERMS5[seed % len(PERMS5)]
+            combos = [(ident, pal) for pal in DIST_PALETTES]
             if q:
-                combos = [(listed[0], pal) for pal in DIST_PALETTES]
-                combos += [(p, pal) for p in listed[1:] for pal in ("distinct", "milli")]
+                combos += [(p, pal) for p in listed[1:] for pal in few]
             elif un == 0:
-                combos = [(list(p), pal) for p in itertools.permutations(range(n)) for pal in DIST_PALETTES]
+                combos += [(list(p), pal) for p in itertools.permutations(range(n)) if list(p) != ident
+                           for pal in ("ones",) + few]
             else:
-                combos = [(p, pal) for p in listed for pal in DIST_PALETTES]
+                combos += [(p, pal) for p in listed[1:] for pal in ("ones",) + few]
         else:
-            combos = [(p, pal) for p in (list(range(n)), list(range(n - 1, -1, -1))) for pal in DIST_PALETTES]
+            combos = [(p, pal) for p in (ident, ident[::-1]) for pal in ("ones",) + few]
         for perm, pal in combos:
             yield si, sh, perm, pal, (nl, un, ar, ne)
 
